@@ -275,7 +275,7 @@ def pmap(fn, items, chunk=None, ncpu=None):
     ncpu = ncpu or NCPU
     if not items:
         return
-    if ncpu <= 1 or len(items) < 4:
+    if ncpu <= 1 or len(items) < 2:
         _WORK_FN = fn
         for r in _run_chunk(items):
             yield r
